@@ -609,6 +609,8 @@ def _dohist(data, dmin, s, binsize, hist, revind=None):
 
     nbin = hist.size
     offset = nbin + 1
+    # one past the last counted datum in the index area
+    last_end = nbin + 1
     i = 0
     binnum_old = -1
 
@@ -630,6 +632,7 @@ def _dohist(data, dmin, s, binsize, hist, revind=None):
 
             hist[binnum] += 1
             binnum_old = binnum
+            last_end = offset + 1
 
         i += 1
         offset += 1
@@ -638,7 +641,7 @@ def _dohist(data, dmin, s, binsize, hist, revind=None):
         # Fill in the last ones
         tbin = binnum_old + 1
         while tbin <= nbin:
-            revind[tbin] = revind.size
+            revind[tbin] = last_end
             tbin += 1
 
 
